@@ -13,4 +13,14 @@ for k in ('uper', 'oer'):
     HARNESSES.append(typed(H, 'var_T_Seq_unkext_%s' % k, 'typed/dec_variants.c', 'T_Seq', k,
                            functions=['%s decoder of T-Seq with an unknown extension addition' % k],
                            inputs='value of T-Seq + one unknown extension addition of one arbitrary octet', bounds='one addition'))
+# the same with the length-form assignment ENUMERATED (symbolic forms move every offset and need > 240 s of solver
+# time for T-Seq/T-Set); values and the type-specific alternatives stay symbolic
+FORMS = {'long': '1,1,1,1,1,1,1,1', 'long0': '2,2,2,2,2,2,2,2', 'indef': '3,3,3,3,3,3,3,3', 'mix1': '0,1,2,3,0,1,2,3', 'mix2': '3,2,1,0,3,2,1,0', 'mix3': '1,0,3,2,1,0,3,2'}
+for t in ('T_Seq', 'T_Set', 'T_Oct', 'T_SeqX'):
+    for fn, ff in FORMS.items():
+        HARNESSES.append(typed(H, 'varf_%s_%s_ber' % (t, fn), 'typed/dec_variants.c', t, 'der', defines=['-DFIXED_FORMS=' + ff],
+                               tiers=('quick', 'thorough') if t in ('T_Seq', 'T_Set') else ('thorough',),
+                               functions=['BER decoder of %s' % t],
+                               inputs='value of %s; type-specific alternative symbolic; per-TLV length forms fixed to (%s) [0 minimal, 1 0x81 nn, 2 0x82 00 nn, 3 indefinite]' % (t, ff),
+                               bounds='length-form assignment enumerated: %s' % fn))
 OUTSIDE = ['XER alternative layouts (whitespace/comments)', 'nesting of constructed strings deeper than one level', 'more than one unknown extension']
